@@ -86,6 +86,41 @@ def _index_terms(exprs, bodies):
     return list(terms.values())
 
 
+def _offsets(quants):
+    """ground terms c such that c + x (x a bound variable) is used as an array / function index in a quantified body"""
+    out, seen, vc = {}, set(), {}
+
+    def idx(t):
+        if z3.is_app(t) and t.decl().kind() == z3.Z3_OP_ADD:
+            ch = t.children()
+            vs = [c for c in ch if z3.is_var(c)]
+            gs = [c for c in ch if not _has_var(c, vc)]
+            if len(vs) == 1 and len(gs) == len(ch) - 1 and gs:
+                c = gs[0] if len(gs) == 1 else z3.Sum(gs)
+                out[c.get_id()] = c
+
+    def walk(t):
+        if t.get_id() in seen:
+            return
+        seen.add(t.get_id())
+        if z3.is_quantifier(t):
+            walk(t.body())
+            return
+        if z3.is_app(t):
+            k = t.decl().kind()
+            ch = t.children()
+            if k in (z3.Z3_OP_SELECT, z3.Z3_OP_STORE):
+                idx(ch[1])
+            elif k == z3.Z3_OP_UNINTERPRETED:
+                for c in ch:
+                    idx(c)
+            for c in ch:
+                walk(c)
+    for q in quants:
+        walk(q)
+    return list(out.values())
+
+
 def decide(assertions, timeout_ms=8000, max_rounds=6, max_inst=6000):
     """assertions: list of z3 BoolRef (path condition + negated goal).  Returns (status, model, info)."""
     t0 = time.time()
@@ -99,6 +134,17 @@ def decide(assertions, timeout_ms=8000, max_rounds=6, max_inst=6000):
     if not quants:
         return 'unknown', None, 'no quantified assumption'
     terms = _index_terms(ground, quants)
+    # an index of the form c + x (x bound, c ground) in a quantified body matches a ground index g at x = g - c
+    offs = _offsets(quants)
+    if offs:
+        base = list(terms)
+        seen_ids = {t.get_id() for t in terms}
+        for c in offs:
+            for g in base:
+                t = z3.simplify(g - c)
+                if t.get_id() not in seen_ids and len(terms) < 60:
+                    seen_ids.add(t.get_id())
+                    terms.append(t)
     fresh = z3.Int('qinst.fresh')
     terms.append(fresh)
     extra = []
@@ -168,15 +214,34 @@ _SK = [0]
 
 
 def _skolemize(a):
-    """not (forall x. body)  ->  not body[x := fresh constants]   (top level only)"""
+    """Top-level normalisation (each step an equivalence or a skolemisation, so satisfiability is preserved):
+         not (forall x. body)  ->  not body[x := fresh constants]
+         exists x. body        ->  body[x := fresh constants]
+         not (exists x. body)  ->  forall x. not body
+         not (a -> b)          ->  a /\ not b           not (a \/ b) -> not a /\ not b        not not a -> a"""
+    def fresh(q):
+        cs = []
+        for i in range(q.num_vars()):
+            _SK[0] += 1
+            cs.append(z3.Const('qinst.sk%d' % _SK[0], q.var_sort(i)))
+        return cs
+    if z3.is_quantifier(a) and a.is_exists():
+        return _skolemize(z3.substitute_vars(a.body(), *reversed(fresh(a))))
+    if z3.is_and(a):
+        return z3.And([_skolemize(c) for c in a.children()])
     if z3.is_not(a):
         q = a.children()[0]
         if z3.is_quantifier(q) and q.is_forall():
-            cs = []
-            for i in range(q.num_vars()):
-                _SK[0] += 1
-                cs.append(z3.Const('qinst.sk%d' % _SK[0], q.var_sort(i)))
-            return z3.Not(z3.substitute_vars(q.body(), *reversed(cs)))
+            return _skolemize(z3.Not(z3.substitute_vars(q.body(), *reversed(fresh(q)))))
+        if z3.is_quantifier(q) and q.is_exists():
+            xs = [z3.Const('qinst.b%d_%d' % (q.get_id(), i), q.var_sort(i)) for i in range(q.num_vars())]
+            return z3.ForAll(xs, z3.Not(z3.substitute_vars(q.body(), *reversed(xs))))
+        if z3.is_implies(q):
+            return z3.And(_skolemize(q.children()[0]), _skolemize(z3.Not(q.children()[1])))
+        if z3.is_or(q):
+            return z3.And([_skolemize(z3.Not(c)) for c in q.children()])
+        if z3.is_not(q):
+            return _skolemize(q.children()[0])
     return a
 
 
